@@ -74,6 +74,24 @@ pub fn gen_table(rng: &mut Rng, max_cols: usize) -> (Vec<(String, Ty)>, Vec<Vec<
     (cols, rows)
 }
 
+/// an IN list with a column-free element that contains a CASE
+fn inlist_const_case(e: &Expr) -> bool {
+    let mut hit = false;
+    let _ = e.map(&mut |x: Expr| {
+        if let Expr::In(_, _, l) = &x {
+            for el in l {
+                let mut cs = std::collections::BTreeSet::new();
+                el.constructs(&mut cs);
+                if !el.has_col() && (cs.contains("case-searched") || cs.contains("case-simple")) {
+                    hit = true;
+                }
+            }
+        }
+        x
+    });
+    hit
+}
+
 fn generic(run: &mut Run, rng: &mut Rng) {
     let n = run.budget(900, 30_000);
     for i in 0..n {
@@ -82,7 +100,7 @@ fn generic(run: &mut Run, rng: &mut Rng) {
         let g = ExprGen { cols: &infos, outer: &[], err_pct: 20, allow_like: true };
         let ty = if rng.chance(1, 2) { Ty::Bool } else { gen_ty(rng) };
         let depth = 1 + rng.below(if run.thorough() { 4 } else { 3 }) as u32;
-        let e = g.expr(rng, ty, depth);
+        let e = g.expr(rng, ty, depth).lower_coalesce();
         let mut cs = std::collections::BTreeSet::new();
         e.constructs(&mut cs);
         for c in &cs {
@@ -106,12 +124,23 @@ fn generic(run: &mut Run, rng: &mut Rng) {
         };
         run.count(if res.is_ok() { "batch:ok" } else { "batch:err" });
         if let Err(m) = &res {
+            if !["div0", "overflow", "cast"].contains(&err_class(m)) {
+                eprintln!("EVALERR {} :: {}", e.sexp(), m.chars().take(300).collect::<String>());
+            }
+        }
+        if let Err(m) = &res {
             if m.starts_with("PANIC") {
                 run.oracle(false, &format!("evaluate panic {}", e.sexp()), m);
                 continue;
             }
         }
-        run.case("evalrows", &format!("({} {} {})", e.sexp(), rows_sexp(&rows), impl_sexp(&res)), "ok", varies);
+        // known finding: a constant CASE inside an IN list is evaluated on an EMPTY batch when the
+        // static filter is built, where it yields its ELSE value
+        let shape = if inlist_const_case(&e) { "-inlist-constant-case" } else { "" };
+        if !shape.is_empty() {
+            run.count("shape:in-list-with-constant-case-element");
+        }
+        run.case(&format!("evalrows{shape}"), &format!("({} {} {})", e.sexp(), rows_sexp(&rows), impl_sexp(&res)), "ok", varies);
 
         // ---- selection
         let mask_vals: Vec<Option<bool>> = match rng.below(5) {
@@ -122,7 +151,7 @@ fn generic(run: &mut Run, rng: &mut Rng) {
         let mask = BooleanArray::from(mask_vals.clone());
         let sel = eval_sel(&p, &batch, &mask);
         let mask_s = format!("({})", mask_vals.iter().map(|m| if *m == Some(true) { "t" } else { "f" }).collect::<Vec<_>>().join(" "));
-        run.case("evalsel", &format!("({} {} {} {})", e.sexp(), rows_sexp(&rows), mask_s, impl_sexp(&sel)), "ok", varies);
+        run.case(&format!("evalsel{shape}"), &format!("({} {} {} {})", e.sexp(), rows_sexp(&rows), mask_s, impl_sexp(&sel)), "ok", varies);
         // oracle: selection == evaluation of the filtered batch (engine against itself)
         let sel_rows: Vec<Vec<Val>> = rows.iter().zip(&mask_vals).filter(|(_, m)| **m == Some(true)).map(|(r, _)| r.clone()).collect();
         let filtered = if sel_rows.is_empty() { Ok(vec![]) } else { eval_batch(&p, &batch_of(&cols, &sel_rows)) };
@@ -235,7 +264,10 @@ fn guarded_case(run: &mut Run, rng: &mut Rng) {
             (Expr::bin(Op::Eq, b(), lit(0)), Expr::bin(Op::Add, a(), lit(1))),
             (Expr::Is(IsKind::Null, false, Box::new(b())), lit(-7)),
             (Expr::and(Expr::bin(Op::Ne, b(), lit(0)), Expr::bin(Op::Ne, b(), lit(-1))), Expr::bin(Op::Div, a(), b())),
-            (Expr::bin(Op::Lt, a(), lit(0)), Expr::Cast { ty: Ty::Int(8), try_: false, implicit: false, e: Box::new(Expr::bin(Op::Div, lit(100), a())) }),
+            (
+                Expr::bin(Op::Lt, a(), lit(0)),
+                Expr::Cast { ty: Ty::Int(64), try_: false, implicit: false, e: Box::new(Expr::Cast { ty: Ty::Int(8), try_: false, implicit: false, e: Box::new(Expr::bin(Op::Div, lit(100), a())) }) },
+            ),
             // an unguarded one: errors are expected and must be errors of the reference too
             (Expr::bin(Op::Ge, a(), lit(1)), Expr::bin(Op::Div, a(), b())),
         ];
@@ -282,9 +314,46 @@ fn guarded_case(run: &mut Run, rng: &mut Rng) {
     }
 }
 
+fn probe() {
+    let i = |n: i64| Expr::i64(n);
+    let b = |e: Expr| Box::new(e);
+    let cols = vec![("c0".to_string(), Ty::Bool)];
+    let rows = vec![vec![Val::Null], vec![Val::Bool(true)]];
+    let case_m1 = Expr::Case(None, vec![(Expr::Is(IsKind::Null, true, b(i(-1))), i(-1))], Some(b(i(0))));
+    let e1 = Expr::In(true, b(Expr::bin(Op::Mul, i(0), i(5))), vec![i(-1), case_m1.clone(), i(-9223372036854775807), i(9223372036854775807)]);
+    let e1b = Expr::In(true, b(Expr::bin(Op::Mul, i(0), i(5))), vec![i(-1), i(-9223372036854775807), i(9223372036854775807)]);
+    let e1c = Expr::In(true, b(i(0)), vec![i(-1), case_m1.clone()]);
+    let e1d = Expr::In(false, b(i(0)), vec![i(-1), case_m1]);
+    let e2 = Expr::Is(IsKind::Null, true, b(e1.clone()));
+    let e3 = Expr::Between(false, b(Expr::Cast { ty: Ty::Int(64), try_: true, implicit: false, e: b(Expr::Lit(Val::Str("b".into()), Ty::Str, false)) }), b(i(10)), b(i(2)));
+    let e4 = Expr::Between(false, b(Expr::Lit(Val::Null, Ty::Int(64), false)), b(i(10)), b(i(2)));
+    let i32l = |n: i64| Expr::Lit(Val::Int(32, n), Ty::Int(32), false);
+    let nn = |e: Expr| Expr::Is(IsKind::Null, true, Box::new(e));
+    let inner = Expr::Case(None, vec![(nn(i(-1)), i(-1)), (nn(i(-1)), i(-1))], Some(b(i(0))));
+    let a_ = Expr::In(true, b(Expr::bin(Op::Mul, i(0), i(5))), vec![i(-1), inner, i(-9223372036854775807), i(9223372036854775807)]);
+    let b_ = Expr::bin(Op::Le, Expr::Case(None, vec![(nn(i32l(-2147483647)), i32l(-2147483647))], Some(b(i32l(3)))), Expr::bin(Op::Sub, i32l(-2147483647), Expr::Lit(Val::Null, Ty::Int(32), false)));
+    let full = Expr::Case(None, vec![(nn(a_.clone()), a_.clone()), (nn(b_.clone()), b_.clone())], Some(b(e3.clone())));
+    let two = Expr::Case(None, vec![(nn(a_.clone()), a_.clone())], Some(b(e3.clone())));
+    let t = Expr::Lit(Val::Bool(true), Ty::Bool, false);
+    let simple = Expr::Case(None, vec![(t.clone(), a_.clone()), (t.clone(), t.clone())], Some(b(e3.clone())));
+    let simple2 = Expr::Case(None, vec![(t.clone(), t.clone()), (t.clone(), t.clone())], Some(b(Expr::Lit(Val::Bool(false), Ty::Bool, false))));
+    let simple3 = Expr::Case(None, vec![(t.clone(), t.clone()), (t.clone(), t.clone())], Some(b(Expr::Lit(Val::Null, Ty::Bool, false))));
+    let simple4 = Expr::Case(None, vec![(t.clone(), t.clone()), (Expr::Col(0), t.clone())], Some(b(Expr::Lit(Val::Bool(false), Ty::Bool, false))));
+    for (n, e) in [("e1", e1), ("e1b", e1b), ("e1c", e1c), ("e1d", e1d), ("e2", e2), ("e3", e3), ("e4", e4), ("A", a_), ("B", b_), ("full", full), ("two", two), ("simple", simple), ("simple2", simple2), ("simple3", simple3), ("simple4", simple4)] {
+        match physical(&e, &cols) {
+            Ok(p) => println!("{n}: {} => {:?}   [{p}]", e.sexp(), eval_batch(&p, &batch_of(&cols, &rows)).map(|v| vals_sexp(&v))),
+            Err(m) => println!("{n}: planning error {m}"),
+        }
+    }
+}
+
 pub fn run(run: &mut Run, args: &Args) {
     let mut rng = Rng::new(args.seed);
     hutil::quiet_panics();
+    if std::env::var("C33_PROBE").is_ok() {
+        probe();
+        return;
+    }
     generic(run, &mut rng);
     static_filters(run, &mut rng);
     guarded_case(run, &mut rng);
